@@ -146,3 +146,157 @@ Print Assumptions C18_no_deadlock.
 Print Assumptions C18_honest_chunks_always_chain.
 Print Assumptions C18_roundtrip.
 Print Assumptions C18_roundtrip_any_arrival_order.
+
+(** * The session's peer queue (p2p/peer_stats.go: peerStats as container/heap, peerQueue.push /
+    waitPop with the havePeer token channel; p2p/session.go: a peer is popped per request and
+    pushed back on success / NOT_FOUND, never on other errors).
+
+    Model/PeerQueue.v: the array heap exactly as container/heap drives it (up / down / Push /
+    Pop over a list of (peer id, score)); scores are an ordered type (Z) - the float32
+    arithmetic of updateStats / decreaseScore is not modelled, the new score is an input
+    wherever the code recomputes it; the queue = heap + token count + capacity; k goroutines
+    with waitPop = two atomic steps (token; lock+Pop) and push = two (lock+Push; token),
+    schedules = lists of [Thr t choice | Env p s] ([Env]: another session changes the score
+    of a peer INSIDE the heap through the shared *peerStat - peerTracker.peers() hands the
+    tracker's own pointers to every session, and doRequest calls updateStats / decreaseScore
+    on them while other sessions still have the peer in their heaps). *)
+From GH Require Import Model.PeerQueue Proofs.PeerQueueP.
+
+(** heap.Push keeps the heap invariant (every element <= its parent), for any score of the
+    pushed peer - in particular whatever happened to its score while it was out *)
+Theorem C18_pq_push_keeps_heap :
+  forall (l : list entry) (x : entry), heap_ok l -> heap_ok (heap_push l x).
+Proof. exact heap_push_ok. Qed.
+
+(** heap.Pop keeps the heap invariant and returns a peer of maximal score *)
+Theorem C18_pq_pop_keeps_heap_returns_best :
+  forall (l : list entry) (e : entry) (h : list entry),
+  heap_ok l -> heap_pop l = Some (e, h) ->
+  heap_ok h /\ forall x, In x l -> (sc x <= sc e)%Z.
+Proof. intros l e h H1 H2. split; [exact (heap_pop_ok l e h H1 H2)|exact (heap_pop_max l e h H1 H2)]. Qed.
+
+(** the multiset of queued peers: Push adds exactly the pushed one, Pop removes exactly the
+    returned one - for ANY array, heap-ordered or not *)
+Theorem C18_pq_multiset :
+  forall (l : list entry),
+  (forall x, Permutation (heap_push l x) (x :: l)) /\
+  (forall e h, heap_pop l = Some (e, h) -> Permutation l (e :: h)).
+Proof. intros l. split; [exact (heap_push_perm l)|exact (heap_pop_perm l)]. Qed.
+
+(** heap.Pop panics exactly on the empty heap *)
+Theorem C18_pq_pop_panics_iff_empty :
+  forall (l : list entry), heap_pop l = None <-> l = [].
+Proof. exact heap_pop_none. Qed.
+
+(** every sequence of Push / Pop from the heap newPeerQueue builds stays a heap *)
+Theorem C18_pq_heap_all_sequences :
+  forall (init : list entry) (ops : list hop), heap_ok (hrun (heap_of init) ops).
+Proof. intros init ops. exact (hrun_ok ops (heap_of init) (heap_of_ok init)). Qed.
+
+(** the loops of up / down are never cut by the model's fuel: any sufficient fuel gives the same array *)
+Theorem C18_pq_fuel_irrelevant :
+  (forall f1 f2 l j, (j < f1)%nat -> (j < f2)%nat -> up_f f1 l j = up_f f2 l j) /\
+  (forall f1 f2 l i n, (n - i <= f1)%nat -> (n - i <= f2)%nat -> down_f f1 l i n = down_f f2 l i n).
+Proof. split; [exact up_fuel_irrelevant|exact down_fuel_irrelevant]. Qed.
+
+(** token/heap pairing, for EVERY interleaving of the two-step operations of any number of
+    goroutines, score changes inside the heap included: tokens + threads between token and
+    Pop + threads between heap.Push and token send = heap size; heap, running requests and
+    dropped peers are exactly the session's initial peers; nothing panics *)
+Theorem C18_pq_token_heap_pairing :
+  forall (init : list entry) (k : nat) (sch : list sev),
+  let s := crun (c_init init k) sch in
+  (c_tok s + cnt is_hastoken (c_pcs s) + cnt is_pushed (c_pcs s) = length (c_heap s))%nat /\
+  Permutation (all_peers s) (map e_id init) /\
+  c_cap s = length (map e_id init) /\
+  c_panic s = false.
+Proof. exact reach_inv. Qed.
+
+(** no peer is lost or duplicated by the queue *)
+Theorem C18_pq_no_peer_lost_or_duplicated :
+  forall (init : list entry) (k : nat) (sch : list sev),
+  NoDup (map e_id init) -> NoDup (all_peers (crun (c_init init k) sch)).
+Proof. exact no_dup_peers. Qed.
+
+(** a Pop never runs on an empty heap: a thread that took a token finds a peer *)
+Theorem C18_pq_pop_never_on_empty_heap :
+  forall (init : list entry) (k : nat) (sch : list sev) (t : nat),
+  let s := crun (c_init init k) sch in
+  nth_error (c_pcs s) t = Some HasToken -> exists e h, heap_pop (c_heap s) = Some (e, h).
+Proof. intros init k sch t. exact (inv_pop_ok _ _ t (reach_inv init k sch)). Qed.
+
+(** a push never blocks (only popped peers are pushed back): when a thread is about to send
+    its token the channel has room *)
+Theorem C18_pq_push_never_blocks :
+  forall (init : list entry) (k : nat) (sch : list sev) (t : nat),
+  let s := crun (c_init init k) sch in
+  nth_error (c_pcs s) t = Some Pushed -> (c_tok s < c_cap s)%nat.
+Proof. intros init k sch t. exact (inv_send_ok _ _ t (reach_inv init k sch)). Qed.
+
+(** no lost wake-up: with a token in the channel an idle thread's waitPop completes in its own
+    next two steps; and when no thread is inside push or waitPop the tokens are exactly the
+    queued peers (a waiter is blocked iff the heap is empty) *)
+Theorem C18_pq_no_lost_wakeup :
+  forall (init : list entry) (k : nat) (sch : list sev),
+  let s := crun (c_init init k) sch in
+  (forall t c1 c2, nth_error (c_pcs s) t = Some Idle -> (0 < c_tok s)%nat ->
+     exists p, nth_error (c_pcs (crun s [Thr t c1; Thr t c2])) t = Some (Holding p)) /\
+  (cnt is_hastoken (c_pcs s) = 0%nat -> cnt is_pushed (c_pcs s) = 0%nat -> c_tok s = length (c_heap s)).
+Proof.
+  intros init k sch. split.
+  - intros t c1 c2. exact (inv_wakeup _ _ t c1 c2 (reach_inv init k sch)).
+  - exact (inv_quiescent _ _ (reach_inv init k sch)).
+Qed.
+
+(** as long as no score changes INSIDE the heap (scores of peers that are out may change at
+    will: [Thr t (Some v)] pushes with any v), every reachable heap satisfies the heap
+    invariant and every Pop hands out a peer of maximal score *)
+Theorem C18_pq_pops_best_peer :
+  forall (init : list entry) (k : nat) (sch : list sev) (t : nat),
+  no_env sch ->
+  let s := crun (c_init init k) sch in
+  heap_ok (c_heap s) /\
+  (nth_error (c_pcs s) t = Some HasToken ->
+   exists e h, heap_pop (c_heap s) = Some (e, h) /\ forall x, In x (c_heap s) -> (sc x <= sc e)%Z).
+Proof. exact pops_best. Qed.
+
+(** ... and that hypothesis is needed: a score raised inside the heap (another session's
+    updateStats on the shared pointer) breaks the heap invariant, and the next waitPop hands
+    out peer 0 (score 5) although peer 2 (score 10) is queued.  The theorems above that
+    quantify over all schedules (pairing, no panic, no blocked push, no lost wake-up, no
+    peer lost) include such steps: only "the best peer" is lost. *)
+Theorem C18_pq_inheap_score_change_refuted :
+  let init := [(0, 5%Z); (1, 4%Z); (2, 3%Z)] in
+  let s := crun (c_init init 1) [Env 2 10%Z] in
+  c_heap s = [(0, 5%Z); (1, 4%Z); (2, 10%Z)] /\
+  ~ heap_ok (c_heap s) /\
+  c_pcs (crun s [Thr 0 None; Thr 0 None]) = [Holding 0] /\
+  c_heap (crun s [Thr 0 None; Thr 0 None]) = [(2, 10%Z); (1, 4%Z)].
+Proof. exact inheap_witness. Qed.
+
+(** non-vacuity: container/heap's tie order on equal scores, and a two-thread run in which
+    both peers are popped, one is dropped, one comes back *)
+Example C18_pq_ties :
+  heap_of [(0, 1%Z); (1, 1%Z); (2, 1%Z); (3, 7%Z); (4, 7%Z)] = [(3, 7%Z); (4, 7%Z); (2, 1%Z); (0, 1%Z); (1, 1%Z)] /\
+  option_map fst (heap_pop (heap_of [(0, 1%Z); (1, 1%Z); (2, 1%Z); (3, 7%Z); (4, 7%Z)])) = Some (3, 7%Z).
+Proof. vm_compute. split; reflexivity. Qed.
+
+Example C18_pq_two_threads :
+  let s := crun (c_init [(0, 1%Z); (1, 2%Z)] 2)
+    [Thr 0 None; Thr 1 None; Thr 1 None; Thr 0 None; Thr 1 None; Thr 0 (Some 9%Z); Thr 0 None] in
+  c_heap s = [(0, 9%Z)] /\ c_tok s = 1%nat /\ c_pcs s = [Idle; Idle] /\ c_dropped s = [1] /\ c_panic s = false.
+Proof. vm_compute. repeat split; reflexivity. Qed.
+
+Print Assumptions C18_pq_push_keeps_heap.
+Print Assumptions C18_pq_pop_keeps_heap_returns_best.
+Print Assumptions C18_pq_multiset.
+Print Assumptions C18_pq_pop_panics_iff_empty.
+Print Assumptions C18_pq_heap_all_sequences.
+Print Assumptions C18_pq_fuel_irrelevant.
+Print Assumptions C18_pq_token_heap_pairing.
+Print Assumptions C18_pq_no_peer_lost_or_duplicated.
+Print Assumptions C18_pq_pop_never_on_empty_heap.
+Print Assumptions C18_pq_push_never_blocks.
+Print Assumptions C18_pq_no_lost_wakeup.
+Print Assumptions C18_pq_pops_best_peer.
+Print Assumptions C18_pq_inheap_score_change_refuted.
